@@ -14,6 +14,7 @@ func TestWorker(t *testing.T) {
 	if os.Getenv("VERIF_JOB") == "" {
 		t.Skip("not started by cmd/check")
 	}
+	initTwins()
 	for _, prop := range []string{"C05", "C07", "C08", "C09", "C12", "C13"} {
 		withTyped(Scenarios[prop])
 	}
